@@ -279,6 +279,19 @@ class Equals(ParametrizedDependentType):
     def check(self, value):
         return value in self.parameters
 
+    def __eq__(self, other):
+        # The order of the values is irrelevant
+        return (
+            type(self) is type(other)
+            and len(self.parameters) == len(other.parameters)
+            and all(p in other.parameters for p in self.parameters)
+            and all(p in self.parameters for p in other.parameters)
+            and self.bound == other.bound
+        )
+
+    def __hash__(self):
+        return hash(frozenset(self.parameters)) ^ hash(self.bound)
+
     @classmethod
     def keygen(cls):
         return "{arg}"
